@@ -34,7 +34,6 @@
 
 /* ------------------------------------------------------------------ T / LOG ---- */
 #ifndef VF_TRANSFORM_LOG
-#ifndef VF_T_LOOP
 static inline _Bool
 vf_sha1_T_post(uint32_t h0, uint32_t h1, uint32_t h2, uint32_t h3, uint32_t h4,
     const uint8_t *blocks, const uint32_t *now) {
@@ -44,22 +43,10 @@ vf_sha1_T_post(uint32_t h0, uint32_t h1, uint32_t h2, uint32_t h3, uint32_t h4,
 		vf_sha1_compress(e, blocks + 64 * b);
 	return (now[0] == e[0] && now[1] == e[1] && now[2] == e[2] && now[3] == e[3] && now[4] == e[4]);
 }
-#endif
 
 /* T: the chaining value after the call is the FIPS 180-4 6.1.2 hash computation applied to
  * the blocks in order; only ctx->hash and the schedule scratch ctx->W are written */
-#ifdef VF_T_LOOP
-/* T.loop: any number of blocks.  No functional postcondition: the job proves, with a loop
- * contract on the block loop (loops/hash_sha1_transform.json), memory safety, the frame,
- * termination and the loop invariant "the working variables A..E equal ctx->hash at the
- * head of every iteration" - so every iteration starts from the same relation between
- * registers and chaining value as the first one, which T (one block) covers. */
-#define VF_SHA1_T_CTX_REQ(ctx)	__CPROVER_requires(__CPROVER_is_fresh(ctx, sizeof(sha1_ctx_t)))
-#define VF_SHA1_T_BLOCKS_REQ(ctx, blocks, blocks_max)					\
-__CPROVER_requires((vf_blk_len & (VF_SHA1_B - 1)) == 0 && __CPROVER_is_fresh(blocks, vf_blk_len) && \
-    blocks_max == blocks + vf_blk_len)
-#define vf_sha1_T_post(a, b, c, d, e, blocks, now)	1
-#elif defined(VF_T_ALIAS)
+#ifdef VF_T_ALIAS
 /* the harness owns the context and passes ctx->buffer itself (concrete pointers) */
 #define VF_SHA1_T_CTX_REQ(ctx)	__CPROVER_requires(__CPROVER_w_ok(ctx, sizeof(sha1_ctx_t)))
 #define VF_SHA1_T_BLOCKS_REQ(ctx, blocks, blocks_max)					\
